@@ -54,6 +54,8 @@ def rebase_frame(I, st, before):
         base = st.frame_base = {}
     for key, B in st.heap.items():
         A = before.get(key)
+        if A is None:
+            A = st.heap0.get(key)      # first touched during the suspension: it still had its entry value
         if A is None or A is B or key == "$cls":
             continue
         E = base.get(key, st.heap0.get(key))
